@@ -336,7 +336,7 @@ class C11(DiffProperty):
             "(blank / graphic / NUL separator, other message types, truncated header, missing message, 130-byte word contiguous and split), "
             "dispatch::set_error, dispatch::set_default, fallback reply context, mpt_dispatch_fini / ~dispatch and operations after it; "
             "ids from {0..5, 0xff, djb2 ids of 5 words, 6,7,8,0x7f,0x80, 2^64-2, 2^64-1}; handler returns from {0..7, 0x10000, 0x10001, "
-            "-1,-2,-16,-128,-129,-200} and optionally rewrites ev->id; 15 hand-written scenarios, every live/dead pattern of up to 6 (thorough 8) "
+            "-1,-2,-16,-128,-129,-200} and optionally rewrites ev->id; 13 hand-written scenarios, every live/dead pattern of up to 6 (thorough 8) "
             "slots on a raw and on a typed table followed by reserve/emit/fini, EVERY history of up to 3 (thorough 4) operations over 12 "
             "fixed operations (exhaustive), + random histories of 2..40 operations aimed at the ids believed registered; "
             "a case is non-trivial when it contains an operation (every case does); distinct = distinct case text")
@@ -348,14 +348,22 @@ class C11(DiffProperty):
     trusted = ["harness/c11_dispatch.cpp reads the table back from raw buffer memory and logs every call of its handler / reply context / metatype",
                "malloc succeeds; char is signed (x86-64) in hash_djb2.c",
                "mpt++/event.cpp is compiled inside the harness unit without -fsanitize=vptr (the C/C++ struct overlay of the library trips it)"]
-    level_text = ("proof: Coq theorems over ALL histories (no bound on length or table size) that the transcribed slot table refines a "
-                  "finite map id -> handler: an event is delivered to exactly the handler registered for its id (direct id, first message "
-                  "byte, djb2 hash of the command word), otherwise to the fallback; _def follows the Default flag; every registration is "
-                  "finalised exactly once and never called afterwards; live ids are unique (reserve never hands out a live id); the model "
-                  "is tied to the code on every run by differential execution under ASan/UBSan")
+    level_text = ("proof: 13 Coq theorems (coq/C11/Properties.v, all closed under the global context) over ALL histories on a fresh "
+                  "dispatcher, no bound on length, table size or ids: C11_step_refines_map / C11_history_refines_map (the slot table with "
+                  "unused-slot reuse, append and in-place compaction refines a finite map id -> handler; no table access out of range; the "
+                  "low-id search of reserve terminates), C11_emit_reaches_registered, C11_emit_fallback_otherwise, C11_emit_empty_message, "
+                  "C11_emit_null_event, C11_hash_reaches_registered (exactly one handler call, to the handler registered for the id carried "
+                  "by id field / first message byte / djb2 hash of the command word, else to the fallback, else nobody), "
+                  "C11_default_bookkeeping (_def and the Default bit of the result follow the handler's return value), "
+                  "C11_finalised_exactly_once / C11_finalised_after_fini (every registration gets exactly one cmd(arg, NULL) - on replace, "
+                  "unregister, clear, set_error or teardown - or is still held; never invoked after it), C11_live_ids_unique, "
+                  "C11_reserved_ids_unique, C11_compaction_is_stable_filter; the model is tied to the code on every run by differential "
+                  "execution of the C entry points and the mpt++ wrappers under ASan/UBSan")
     level_note = ("trusted: Coq kernel; hand transcription of the C/C++ sources (validated by the correspondence run, not verified); "
-                  "extraction and OCaml driver; harness; handlers are abstract (scripted return value, may rewrite ev->id, do not "
-                  "re-enter the dispatcher); allocation success. See docs/notes_C11.md.")
+                  "extraction and OCaml driver; harness. Handlers are abstract: scripted return value, may rewrite ev->id, do not re-enter "
+                  "the dispatcher. Message parts go through the C17 model (its theorems are used). Allocation is assumed to succeed; the "
+                  "buffer allocator is modelled only as typed/raw. Two defects found and fixed in the worktree (reserve id wrap to 0, "
+                  "dispatch::set_default indexing by position). mpt++/event.cpp is compiled without -fsanitize=vptr. See docs/notes_C11.md.")
     technique = "Coq refinement proof (slot table -> finite map, call log invariants) + differential correspondence check"
     assumptions = ["malloc succeeds", "handlers do not call back into the dispatcher they are registered on",
                    "a reserved slot is armed by the caller as mpt_connection_await does (log_reply is never dispatched an event)"]
